@@ -156,9 +156,11 @@ def replay_sequence(run, ct, rng, pool, seq, cfg):
     desc = {"pool": [p.to_json() for p in pool], "seq": seq, "cfg": cfg}
     tags = {"hash:" + cfg["hash"], "overwrite:" + str(cfg["overwrite"]), "kind:" + kind}
 
-    def new_opt(ow, co):
+    def new_opt(ow, co, first=True):
+        # objects created after a restart may open the directory with directory_split="auto" (layout detection)
+        split = cfg["split"] if (first or not cfg.get("auto_after_restart")) else "auto"
         kw = dict(directory=directory, overwrite=ow, hash_method=cfg["hash"], cache_only=co,
-                  directory_split=cfg["split"])
+                  directory_split=split)
         if kind == "hyper":
             return cls(methods=["greedy"], max_repeats=2, optlib="random", parallel=False,
                        slicing_opts={"target_slices": 2}, **kw)
@@ -187,10 +189,10 @@ def replay_sequence(run, ct, rng, pool, seq, cfg):
             cur.append((step, q))
     segments.append(cur)
 
-    def do_segment(seg):
+    def do_segment(seg, si=0):
         nonlocal raw
         raw = []
-        opt = new_opt(ow_py, False)
+        opt = new_opt(ow_py, False, first=(si == 0))
         for step, q in seg:
             net = pool[q - 1]
             # cache_only is exercised on the last query of a sequence with probability 1/3
@@ -271,11 +273,11 @@ def replay_sequence(run, ct, rng, pool, seq, cfg):
             if si > 0:
                 all_raw.append({"kind": "restart"})
             if cfg.get("fresh_process") and directory:
-                r_, v_, runs_, last_ = _in_child(lambda: do_segment(seg))
+                r_, v_, runs_, last_ = _in_child(lambda: do_segment(seg, si))
                 rec.runs, rec.last_run_con = runs_, last_
                 viol[:] = v_
             else:
-                r_, _, _, _ = do_segment(seg)
+                r_, _, _, _ = do_segment(seg, si)
             all_raw += r_
         raw = all_raw
     finally:
@@ -324,7 +326,7 @@ def run(run):
                "disk": rng.random() < 0.7, "split": rng.choice([True, False, "auto"]),
                "overwrite": rng.choice(["no", "no", "yes", "improved", "improved"]),
                "cache_only_last": rng.random() < 0.3, "via_call": rng.random() < 0.4,
-               "fresh_process": (not quick) or rng.random() < 0.15}
+               "fresh_process": (not quick) or rng.random() < 0.15, "auto_after_restart": rng.random() < 0.5}
         pool = rng.choice(pools)
         run.count()
         run.nontrivial((str(seq), str(cfg), pool[0].eq()))
